@@ -761,6 +761,8 @@ def inline_calls(F, fn, want=None, depth=2, max_blocks=1500):
             nt["inl"] = r
             if subst and nt["k"] == "call":
                 _instantiate_call(F, nt, subst)
+                # closures created in a generic helper inherit its type parameters: whoever follows them needs the instance
+                nt["subst"] = dict(subst, **(nt.get("subst") or {}))
             nb["t"] = nt
             g["blocks"].append(nb)
         # landing block: dest = move callee._0 ; goto original target
@@ -779,6 +781,19 @@ def inline_calls(F, fn, want=None, depth=2, max_blocks=1500):
             work.append((off_b + j, d - 1, stack + (r,)))
     g.pop("_last_inl", None)
     cache[ck] = g
+    return g
+
+
+def instantiate_body(F, fn, subst):
+    """copy of a (closure) body with the trait calls on type parameters resolved for this instance of the enclosing generic fn"""
+    import copy
+    g = copy.deepcopy(fn)
+    g["path"] = fn["path"] + "<" + ",".join("%s=%s" % kv for kv in sorted(subst.items())) + ">"
+    g["instance_of"] = fn["path"]
+    for b in g["blocks"]:
+        if b["t"]["k"] == "call":
+            _instantiate_call(F, b["t"], subst)
+            b["t"]["subst"] = dict(subst)
     return g
 
 
